@@ -26,7 +26,7 @@ func c18Step(w *World, h *HistRun, i int) (fs []Finding) {
 	// steady state: the same kind of request has been completed before in this history
 	seenBefore := false
 	for j := 0; j < i; j++ {
-		if h.Steps[j].Op.K == st.Op.K && len(h.Steps[j].Op.MUs) == len(st.Op.MUs) && h.Steps[j].Supi == st.Supi && h.Steps[j].Resp.Code/100 == 2 {
+		if h.Steps[j].Op.K == st.Op.K && len(h.Steps[j].Op.MUs) == len(st.Op.MUs) && h.Steps[j].Op.Cons == st.Op.Cons && h.Steps[j].Supi == st.Supi && h.Steps[j].Resp.Code/100 == 2 {
 			seenBefore = true
 		}
 	}
@@ -113,7 +113,20 @@ func c18RunJob(t *testing.T, raw json.RawMessage) (any, error) {
 }
 
 func init() {
-	histOracles["C18"] = HistOracle{Step: c18Step, State: apiState}
+	histOracles["C18"] = HistOracle{Step: c18Step, State: func(w *World, h *HistRun) (string, any) {
+		k, info := apiState(w, h)
+		// ghost state of the oracle: which kinds of request have already been completed once (and how often, up to 2)
+		cnt := map[string]int{}
+		for _, st := range h.Steps {
+			if st.Resp.Code/100 == 2 {
+				cnt[fmt.Sprintf("%s/%d/%s/%s", st.Op.K, len(st.Op.MUs), st.Op.Cons, st.Supi[len(st.Supi)-1:])]++
+			}
+		}
+		for _, sig := range sortedKeys(cnt) {
+			k += fmt.Sprintf("|%s=%d", sig, min(cnt[sig], 2))
+		}
+		return k, info
+	}}
 	jobHandlers["c18run"] = c18RunJob
 	checks["C18"] = func(t *testing.T) int {
 		rep := NewReport("C18")
@@ -140,6 +153,12 @@ func init() {
 					}
 				}
 				ops = append(ops, Op{K: "recharge", U: 0, RG: 1, Amt: 10})
+				// a rating group the peers know nothing about: they stay silent and the request completes through its timeouts
+				for si, s := range in.Sess {
+					if s.Live && s.U == 1 {
+						ops = append(ops, Op{K: "update", S: si, MUs: []MU{{RG: 77, Req: 50, Conts: []Cont{{Vol: 0, Seq: int32(10*d + si + 7)}}}}, Seq: int32(d), Cons: "unanswered"})
+					}
+				}
 				return
 			}}
 		RunBFS(pool, sp, rep, &st)
